@@ -452,8 +452,20 @@ func (x *fnCtx) applyContract(st *State, fr *Frame, in ssa.Instruction, con *Con
 		}
 	}
 	env2 := &specEnv{x: x, st: st, heap: st.heap, old: oldHeap, names: names, fr: fr, pkg: con.Pkg}
+	calleeBinds := map[string]bool{}
+	for _, td := range con.Traces {
+		if td.As != "" {
+			calleeBinds[td.As] = true
+		}
+	}
 	for _, cl := range con.ClausesOf("ensures") {
 		if !cl.appliesTo(x.eng.prop) {
+			continue
+		}
+		// a postcondition over the callee's own ghost bindings (or loop variables) says nothing
+		// the caller can use; it must never be evaluated against the caller's ghosts
+		if sexprMentions(cl.Expr, calleeBinds) {
+			x.eng.logAbs("%s: postcondition of %s not usable at the call site (%s)", x.short, con.Func, cl.Text)
 			continue
 		}
 		func() {
@@ -979,4 +991,21 @@ func (x *fnCtx) calleeUnlessExcluded(st *State, fr *Frame, in ssa.Instruction, c
 	}
 	x.addVC(st, x.short, "only_calls", cl.Ord, fmt.Sprintf("%d.%s.unless", site, what), Implies(same, Not(u)), fmt.Sprintf("%s is passed only when the callee's role applies (not %s)", cl.Expr.String(), ccl.Cond.String()), x.eng.posStr(in.Pos()))
 	return true
+}
+
+// sexprMentions: the expression mentions one of the names (as an identifier, also inside
+// bound(...)) or a loop variable ($i, $v, $k).
+func sexprMentions(e *SExpr, names map[string]bool) bool {
+	if e == nil {
+		return false
+	}
+	if e.Kind == "ident" && (names[e.Op] || e.Op == "$i" || e.Op == "$v" || e.Op == "$k") {
+		return true
+	}
+	for _, a := range e.Args {
+		if sexprMentions(a, names) {
+			return true
+		}
+	}
+	return false
 }
